@@ -76,6 +76,9 @@ func (p *Projector) Feed(e mem.Ev) {
 	if c, has := e["conn"]; has && AsInt(c) != p.Conn && p.Conn != 0 {
 		return
 	}
+	if e["k"] == "x-global" && p.Proj != nil && !p.Proj.Global {
+		return
+	}
 	if p.SkipPre && !p.preDone {
 		switch e["k"] {
 		case "send":
@@ -133,7 +136,7 @@ func (p *Projector) Feed(e mem.Ev) {
 	case "write":
 		p.bytes(e["b"].([]byte))
 	case "cb":
-		p.Out = append(p.Out, M{"k": "cb", "c": p.Proj.KeepCb(AsM(Clean(e["c"])))})
+		p.Out = append(p.Out, M{"k": "cb", "c": p.Proj.KeepCb(AsM(e["c"]))})
 	case "idle":
 		p.Out = append(p.Out, M{"k": "idle"})
 	case "close":
